@@ -9,11 +9,16 @@ import sys
 sys.path.insert(0, HERE)
 sys.dont_write_bytecode = True
 
+# checks that have been run end to end on the unchanged tree by the integrator
+READY = ['C01', 'C04', 'C05', 'C06', 'C09', 'C10', 'C11', 'C18']
+
 CHECKS = {}
 for f in sorted(os.listdir(os.path.join(HERE, 'props'))):
     if f.startswith('C') and f.endswith('.py'):
+        if f[:-3] not in READY:
+            continue
         mod = importlib.import_module('props.' + f[:-3])
-        if getattr(mod, 'MANIFEST', None):
+        if getattr(mod, 'MANIFEST', None) and f[:-3] in READY:
             CHECKS[f[:-3]] = mod.MANIFEST
 
 # properties deliberately not claimed, with the reason (see DESIGN.md)
